@@ -126,6 +126,9 @@ func check(which, tier string, dump bool) (code int) {
 		return failAll(err.Error())
 	}
 	patterns["./verif_fixtures/..."] = true
+	if err := snap.AddProbes(vdir); err != nil {
+		return failAll(err.Error())
+	}
 
 	var specs []rules.GenSpec
 	var mats []*pipeline.Materialised
